@@ -19,20 +19,25 @@
    Text is a sequence of 1-character strings.                                                          *)
 EXTENDS Integers, Sequences, FiniteSets, TLC
 
-CONSTANT RetryOnAbort     \* FALSE: repaired loop;  TRUE: `except Exception` also swallows the abort at end of input
+CONSTANTS RetryOnAbort,    \* FALSE: repaired loop;  TRUE: `except Exception` also swallows the abort at end of input
+          SnapshotChoices  \* FALSE: the validator works on the question's live choice list (the code);
+                           \* TRUE: on the list as it was when the question was built (kept so that TLC can show what breaks)
 
-VARIABLES q,        \* the question [kind, choices, multi, hasDef, def, defB, maxAtt, interactive, validator, pat]
+VARIABLES q,        \* the question [kind, choices, built, multi, hasDef, def, defB, maxAtt, interactive, validator, pat]
+                    \*   choices = the caller's list at the time of asking, built = the same list when the question
+                    \*   object was constructed (the question keeps a reference: the caller may change it in between)
+          objAtt,   \* A: the attempt limit stored in the question OBJECT (survives from one ask to the next)
           script,   \* typed lines; end of input follows
           start,    \* lines consumed before this dialogue
           pos,      \* lines consumed so far
           left,     \* A: remaining attempts (Unl = unlimited)
           pend,     \* A: class of the error that is waiting to be printed / raised, or "none"
           cur,      \* A: the answer under validation (trimmed, default applied)
-          pc,       \* "ask" "head" "prompt" "read" "validate" "normalize" "retry" "done"
+          pc,       \* "new" "ask" "head" "prompt" "read" "validate" "normalize" "retry" "done"
           out,      \* outcome [kind: "none"|"ret"|"exc", cls, val]
           obs       \* what an observer of the streams counts: [reads, errs, prompts]
-core == <<q, script, start, pos, left, pend, cur, pc, out>>
-vars == <<q, script, start, pos, left, pend, cur, pc, out, obs>>
+core == <<q, objAtt, script, start, pos, left, pend, cur, pc, out>>
+vars == <<q, objAtt, script, start, pos, left, pend, cur, pc, out, obs>>
 
 Unl == -1
 
@@ -110,16 +115,18 @@ One(cs, v) == IF Count(cs, v) > 1 THEN [ok |-> FALSE, s |-> <<>>]
                    IN IF p.ok /\ 0 <= p.v /\ p.v < Len(cs) THEN [ok |-> TRUE, s |-> cs[p.v + 1]]
                       ELSE [ok |-> FALSE, s |-> <<>>]
 
+\* SelectChoiceValidator keeps `question.choices` - a reference to the caller's list, hence its current content
+Values(qq) == IF SnapshotChoices THEN qq.built ELSE qq.choices
 ChoiceValidate(qq, c) ==
   IF c.t # "str" THEN Bad("TypeError")                  \* empty line and no default: None reaches the validator
   ELSE IF qq.multi
        THEN LET ps == Parts(c.s)
             IN IF \E k \in 1..Len(ps) : ps[k] = <<>> THEN Bad("ValueError")       \* ^[^,]+(?:,[^,]+)*$
-               ELSE LET rs == [k \in 1..Len(ps) |-> One(qq.choices, Strip(ps[k]))]
+               ELSE LET rs == [k \in 1..Len(ps) |-> One(Values(qq), Strip(ps[k]))]
                     IN IF \A k \in 1..Len(rs) : rs[k].ok
                        THEN Good(VList([k \in 1..Len(rs) |-> rs[k].s]))
                        ELSE Bad("ValueError")
-       ELSE LET r == One(qq.choices, c.s) IN IF r.ok THEN Good(VStr(r.s)) ELSE Bad("ValueError")
+       ELSE LET r == One(Values(qq), c.s) IN IF r.ok THEN Good(VStr(r.s)) ELSE Bad("ValueError")
 
 \* kind "plain": a Question with the harness' validator "the answer is one of `choices`" (ValueError otherwise)
 PlainValidate(qq, c) == IF c.t = "str" /\ Count(qq.choices, c.s) >= 1 THEN Good(c) ELSE Bad("ValueError")
@@ -132,21 +139,26 @@ Exc(c) == [kind |-> "exc", cls |-> c, val |-> VNone]
 NoOut == [kind |-> "none", cls |-> "", val |-> VNone]
 Obs0 == [reads |-> 0, errs |-> 0, prompts |-> 0]
 
+\* environment: between building the question and asking it the caller may have changed the list it passed in
+\* (q.built -> q.choices); the object holds the list by reference, so nothing has to happen in the algorithm
+CallerEdits == /\ pc = "new" /\ pc' = "ask"
+               /\ UNCHANGED <<q, objAtt, script, start, pos, left, pend, cur, out>>
+
 \* Question.ask
 Ask == /\ pc = "ask"
        /\ IF ~q.interactive THEN /\ out' = Ret(DefaultVal(q)) /\ pc' = "done" /\ left' = left
-          ELSE IF q.validator THEN /\ left' = (IF q.maxAtt = 0 THEN Unl ELSE q.maxAtt) /\ pc' = "head" /\ out' = out
+          ELSE IF q.validator THEN /\ left' = (IF objAtt = 0 THEN Unl ELSE objAtt) /\ pc' = "head" /\ out' = out   \* attempts = self._attempts
           ELSE /\ pc' = "prompt" /\ left' = left /\ out' = out
-       /\ UNCHANGED <<q, script, start, pos, pend, cur>>
+       /\ UNCHANGED <<q, objAtt, script, start, pos, pend, cur>>
 
 \* _validate_attempts: `while attempts is None or attempts:` + printing of the pending error; `raise error`
 LoopHead == /\ pc = "head"
             /\ IF left = 0 THEN out' = Exc(pend) /\ pc' = "done" ELSE out' = out /\ pc' = "prompt"
-            /\ UNCHANGED <<q, script, start, pos, left, pend, cur>>
+            /\ UNCHANGED <<q, objAtt, script, start, pos, left, pend, cur>>
 
 \* _do_ask: _write_prompt
 Prompt == /\ pc = "prompt" /\ pc' = "read"
-          /\ UNCHANGED <<q, script, start, pos, left, pend, cur, out>>
+          /\ UNCHANGED <<q, objAtt, script, start, pos, left, pend, cur, out>>
 
 \* _read_from_input: a line, or RuntimeError("Aborted") at end of input
 Read == /\ pc = "read"
@@ -158,24 +170,24 @@ Read == /\ pc = "read"
                 /\ IF q.validator /\ RetryOnAbort
                    THEN pend' = "RuntimeError" /\ pc' = "retry" /\ out' = out
                    ELSE pend' = pend /\ pc' = "done" /\ out' = Exc("RuntimeError")
-        /\ UNCHANGED <<q, script, start, left>>
+        /\ UNCHANGED <<q, objAtt, script, start, left>>
 
 Validate == /\ pc = "validate"
             /\ LET r == IF q.kind = "choice" THEN ChoiceValidate(q, cur) ELSE PlainValidate(q, cur)
                IN IF r.ok THEN out' = Ret(r.val) /\ pc' = "done" /\ pend' = pend
                   ELSE out' = out /\ pc' = "retry" /\ pend' = r.cls
-            /\ UNCHANGED <<q, script, start, pos, left, cur>>
+            /\ UNCHANGED <<q, objAtt, script, start, pos, left, cur>>
 
 \* `if attempts is not None: attempts -= 1`
 Retry == /\ pc = "retry" /\ pc' = "head"
          /\ left' = (IF left = Unl THEN Unl ELSE left - 1)
-         /\ UNCHANGED <<q, script, start, pos, pend, cur, out>>
+         /\ UNCHANGED <<q, objAtt, script, start, pos, pend, cur, out>>
 
 \* no validator: the (normalised) answer is returned as it is
 Normalize == /\ pc = "normalize" /\ pc' = "done" /\ out' = Ret(Norm(q, cur))
-             /\ UNCHANGED <<q, script, start, pos, left, pend, cur>>
+             /\ UNCHANGED <<q, objAtt, script, start, pos, left, pend, cur>>
 
-Step == Ask \/ LoopHead \/ Prompt \/ Read \/ Validate \/ Retry \/ Normalize
+Step == CallerEdits \/ Ask \/ LoopHead \/ Prompt \/ Read \/ Validate \/ Retry \/ Normalize
 
 \* the observer: reads of the input stream, error lines and prompts on the error output
 Observed == obs' = [reads   |-> obs.reads + (IF pc = "read" THEN 1 ELSE 0),
@@ -185,10 +197,14 @@ Next == Step /\ Observed
 CoreNext == Step /\ UNCHANGED obs        \* without the counters the state space is finite even if the dialogue spins
 
 Start(qq, sc, st) ==
-  /\ q = qq /\ script = sc /\ start = st /\ pos = st /\ left = 0 /\ pend = "none" /\ cur = VNone
-  /\ pc = "ask" /\ out = NoOut /\ obs = Obs0
+  /\ q = qq /\ objAtt = qq.maxAtt /\ script = sc /\ start = st /\ pos = st /\ left = 0 /\ pend = "none" /\ cur = VNone
+  /\ pc = "new" /\ out = NoOut /\ obs = Obs0
 Reset(qq, sc, st) ==
-  /\ q' = qq /\ script' = sc /\ start' = st /\ pos' = st /\ left' = 0 /\ pend' = "none" /\ cur' = VNone
+  /\ q' = qq /\ objAtt' = qq.maxAtt /\ script' = sc /\ start' = st /\ pos' = st /\ left' = 0 /\ pend' = "none" /\ cur' = VNone
+  /\ pc' = "new" /\ out' = NoOut /\ obs' = Obs0
+\* the SAME question object is asked again (on the input sc from line st): whatever the object stores survives
+ReAsk(sc, st) ==
+  /\ q' = q /\ objAtt' = objAtt /\ script' = sc /\ start' = st /\ pos' = st /\ left' = 0 /\ pend' = "none" /\ cur' = VNone
   /\ pc' = "ask" /\ out' = NoOut /\ obs' = Obs0
 
 \* the model's own outcome in the shape of an observation
@@ -196,10 +212,13 @@ ModelObs == [kind |-> out.kind, cls |-> out.cls, val |-> out.val, reads |-> obs.
              errs |-> obs.errs, prompts |-> obs.prompts, outBytes |-> 0,
              errBytes |-> IF obs.prompts + obs.errs > 0 THEN 1 ELSE 0]
 
+\* nothing of a dialogue survives in the question object
+ObjectIntact == objAtt = q.maxAtt
+
 \* liveness: every dialogue ends (checked under weak fairness of the step relation, no state constraint)
 Termination == <>(pc = "done")
 
-TypeOK == /\ pc \in {"ask", "head", "prompt", "read", "validate", "normalize", "retry", "done"}
+TypeOK == /\ pc \in {"new", "ask", "head", "prompt", "read", "validate", "normalize", "retry", "done"}
           /\ pos \in start..Len(script) /\ left >= -1
           /\ out.kind \in {"none", "ret", "exc"} /\ (pc = "done") = (out.kind # "none")
 
